@@ -180,6 +180,19 @@ impl XmlConverter {
             }
             match root {
                 Some(n) => {
+                    // A document has exactly one root element. A text node
+                    // there is not well formed xml.
+                    let is_element = match n.as_ref() {
+                        Val::Tuple(fs) => fs.iter().any(|(k, _)| k.as_ref() == "name"),
+                        _ => false,
+                    };
+                    if !is_element {
+                        return Err(BuildError::new(
+                            "XML doc root must be an element tuple with a name field",
+                            ErrorType::TypeFail,
+                        )
+                        .to_boxed());
+                    }
                     let mut writer = EmitterConfig::new()
                         .perform_indent(true)
                         .normalize_empty_elements(false)
